@@ -20,9 +20,11 @@ CLAIMED = {
     'C12': ('model_checking', '§6 C12', 'Round trip decided at the serde data-model boundary: gdsl\'s real serialize / graph_serde_decompose / visit_seq MIR is executed against a stub Serializer that records the 2-tuple of sequences and a stub SeqAccess that hands it back; node and edge values symbolic, the hash map\'s iteration order a free choice; the rebuilt graph must have the same members, values and per-node out-lists (directed, in order) / incident multisets (undirected). JSON and CBOR are exercised natively on validation scenarios and replays (and must agree), not encoded.'),
     'C13': ('model_checking', '§6 C13', 'Every document visit_seq can be handed within the bound (node list with repeated keys, edge list with undeclared endpoints, either list absent or replaced by an element the format reports as an error) is executed through the real visit_seq MIR: no panic, Err whenever an edge names an undeclared key, Ok graphs satisfy the C01/C02 invariants and contain only nodes and edges of the document. Byte-level parsing is outside.'),
     'C19': ('model_checking', '§6 C19', 'Executor Rc/Arc count model with drop events on all four flavours: for every graph of the bound, optional container membership, optional kept search result (path, node, cycle, node vector, edge vector) and a family of drop orders, the release counter of every node value is compared after every drop with the set of handles still held: never released while held (directly, through the container or through a kept result), kept results stay usable, and released exactly once when the last handle is gone (cycles and self-loops included). Native replays observe releases through a drop-counting payload.'),
+    'C16': ('model_checking', '§6 C16', 'Engine C: struct definitions and unsafe impl headers of Node, WeakNode, Adjacent, Edge, Graph, Path are parsed from the current source; Send(T) / Sync(T) are encoded as Boolean functions of the six leaf facts {K,N,E} x {Send,Sync} under std auto-trait axioms with coinduction (post-fixpoint existence); z3 decides each obligation (sync types: trait only if all six and trait if all six; plain types: never) over all 64 assignments at once - a complete decision of the encoded rules. A probe crate compiled against /repo reports rustc\'s actual verdict for every type x assignment (768 rows); any disagreement with the encoder makes the run inconclusive, every counterexample must be confirmed by it.'),
 }
 NOTE = 'Trusted base: engine A std models (validated differentially against the native build on every run), rustc MIR dump = compiled code, z3. Bounds in evidence.coverage.bounds.'
 TECH = 'bounded symbolic execution of rustc MIR (own executor) + z3; native replay of counterexamples'
+TECHS = {'C16': 'SAT/SMT (z3) decision of a Boolean auto-trait encoding extracted from the source; rustc probe crate confirms'}
 ALL = ['C01', 'C02', 'C03', 'C20', 'C04', 'C05', 'C06', 'C07', 'C08', 'C09', 'C10', 'C11', 'C15', 'C16', 'C17', 'C12', 'C13', 'C14', 'C18', 'C19']
 
 m = {
@@ -38,6 +40,8 @@ m = {
     'engines': [
         {'name': 'gdsl-symex', 'path': 'symex/', 'serves_properties': sorted(CLAIMED),
          'kind_free_text': 'symbolic executor for rustc MIR text dumps (Python + z3), std modelled, DFS by re-execution, 16 worker processes'},
+        {'name': 'auto-trait-encoder', 'path': 'symex/c16.py', 'serves_properties': ['C16'],
+         'kind_free_text': 'Boolean encoding of Send/Sync over leaf facts, decided by z3; probe crate compiled by rustc'},
         {'name': 'gdsl-replay', 'path': 'replay/', 'serves_properties': sorted(CLAIMED),
          'kind_free_text': 'native scenario interpreter linked against /repo; confirms counterexamples and validates the std models'},
     ],
@@ -54,10 +58,10 @@ for pid in ALL:
             'thorough_cmd': f'bin/check {pid} --tier thorough',
             'evidence_file': f'evidence/{pid}.json',
             'replay_cmd_template': f'bin/check {pid} --replay {{path}}',
-            'engine': 'gdsl-symex',
+            'engine': 'auto-trait-encoder' if pid == 'C16' else 'gdsl-symex',
             'level_claimed': {'category': cat, 'text': text, 'design_ref': ref},
             'level_note': NOTE,
-            'technique': TECH,
+            'technique': TECHS.get(pid, TECH),
         })
     else:
         m['not_applicable'].append({'property_id': pid, 'reason': 'check not built yet in this snapshot (planned with the same technique, see DESIGN.md §6); no claim is made'})
